@@ -19,11 +19,16 @@ import (
 	"github.com/Nextdoor/pg-bifrost.git/marshaller"
 	"github.com/Nextdoor/pg-bifrost.git/partitioner"
 	"github.com/Nextdoor/pg-bifrost.git/shutdown"
+	"github.com/Nextdoor/pg-bifrost.git/stats"
 	"github.com/Nextdoor/pg-bifrost.git/transport"
 	"github.com/Nextdoor/pg-bifrost.git/transport/batcher"
 	tkafka "github.com/Nextdoor/pg-bifrost.git/transport/transporters/kafka"
+	tkinesis "github.com/Nextdoor/pg-bifrost.git/transport/transporters/kinesis"
+	kintr "github.com/Nextdoor/pg-bifrost.git/transport/transporters/kinesis/transporter"
 	trabbit "github.com/Nextdoor/pg-bifrost.git/transport/transporters/rabbitmq"
 	ts3 "github.com/Nextdoor/pg-bifrost.git/transport/transporters/s3"
+	s3tr "github.com/Nextdoor/pg-bifrost.git/transport/transporters/s3/transporter"
+	"github.com/cevaris/ordered_map"
 	"github.com/jackc/pgx/v5/pgconn"
 )
 
@@ -166,10 +171,54 @@ func plumbingFactory(w []string) (res string) {
 	return out
 }
 
+// plumbing workers <kind> <n>: the sink's workers as its factory builds them: how many DIFFERENT retry policy objects
+// they hold (a policy is stateful - Reset restarts its give-up clock - so one shared between workers lets any
+// worker's traffic keep every other worker's budget from ever running out)
+func plumbingWorkers(w []string) (res string) {
+	defer func() {
+		if r := recover(); r != nil {
+			res = fmt.Sprintf("panic %v", r)
+		}
+	}()
+	n, _ := strconv.Atoi(w[3])
+	sh := shutdown.NewShutdownHandler()
+	defer sh.CancelFunc()
+	ins := make([]<-chan transport.Batch, n)
+	for i := range ins {
+		ins[i] = make(chan transport.Batch)
+	}
+	written := make(chan *ordered_map.OrderedMap, 1)
+	statsChan := make(chan stats.Stat, 16)
+	seen := map[interface{}]bool{}
+	switch w[2] {
+	case "kinesis":
+		ts := tkinesis.New(sh, written, statsChan, n, ins, map[string]interface{}{tkinesis.ConfVarStreamName: "s", tkinesis.ConfVarAwsRegion: "us-east-1",
+			tkinesis.ConfVarAwsAccessKeyId: "k", tkinesis.ConfVarAwsSecretAccessKey: "s", tkinesis.ConfVarEndpoint: "http://127.0.0.1:1",
+			config.VAR_NAME_WORKERS: n, config.VAR_NAME_PARTITION_METHOD: partitioner.PART_METHOD_NONE})
+		for _, t := range ts {
+			seen[(*t).(*kintr.KinesisTransporter).VerifRetryPolicy()] = true
+		}
+	case "s3":
+		ts := ts3.New(sh, written, statsChan, n, ins, map[string]interface{}{ts3.ConfVarBucketName: "b", ts3.ConfVarKeySpace: "k", ts3.ConfVarPutBatchSize: 10,
+			ts3.ConfVarAwsRegion: "us-east-1", ts3.ConfVarAwsAccessKeyId: "k", ts3.ConfVarAwsSecretAccessKey: "s", ts3.ConfVarEndpoint: "http://127.0.0.1:1",
+			ts3.ConfVarBufMaxRuse: 4, config.VAR_NAME_WORKERS: n})
+		for _, t := range ts {
+			seen[(*t).(*s3tr.S3Transporter).VerifRetryPolicy()] = true
+		}
+	default:
+		return "bad-op"
+	}
+	return fmt.Sprintf("policies=%d", len(seen))
+}
+
 func plumbingRun(c Case) ([]string, []string) {
 	outs := []string{}
 	for _, l := range c.Lines {
 		w := strings.Fields(l)
+		if len(w) == 4 && w[1] == "workers" {
+			outs = append(outs, plumbingWorkers(w))
+			continue
+		}
 		if len(w) == 6 && w[1] == "factory" {
 			outs = append(outs, plumbingFactory(w))
 			continue
@@ -192,6 +241,9 @@ func plumbingGen(r *Rng, tier string) Case {
 	ls := "-"
 	if len(list) > 0 {
 		ls = strings.Join(list, ",")
+	}
+	if r.Chance(15) {
+		return Case{[]string{fmt.Sprintf("plumbing workers %s %d", Pick(r, []string{"kinesis", "s3"}), r.Range(1, 5))}}
 	}
 	if r.Chance(35) {
 		sizes := []int{1000, 5000, 100000, 262144, 1000000}
@@ -221,6 +273,12 @@ func plumbingMonitor(lines, outs []string, m *Model) []Violation {
 		}
 		if strings.HasPrefix(outs[i], "panic") {
 			vs = append(vs, Violation{"C17", "app.New panics on a configuration main.go accepts: " + l + " => " + outs[i], ""})
+			continue
+		}
+		if strings.HasPrefix(l, "plumbing workers") {
+			if want != outs[i] {
+				vs = append(vs, Violation{"C17", "the sink's workers do not each have a retry policy of their own: wanted " + want + ", observed " + outs[i] + " (" + l + "): a worker whose batch keeps failing never exhausts a budget that other workers keep resetting", ""})
+			}
 			continue
 		}
 		if strings.HasPrefix(l, "plumbing factory") {
